@@ -4,6 +4,8 @@
 package apprig
 
 import (
+	"fmt"
+
 	"git.sr.ht/~rockorager/vaxis"
 	vsignal "git.sr.ht/~rockorager/vaxis/verifshim/vsignal"
 	vtime "git.sr.ht/~rockorager/vaxis/verifshim/vtime"
@@ -79,12 +81,37 @@ func (r *Rig) Post(ev vaxis.Event) bool {
 	return r.Sync()
 }
 
-// Inject sends terminal input and waits until the resulting events have been handled.
+// Inject sends terminal input followed by an in-band sentinel (a kitty report of
+// the Caps Lock key whose modifier field carries a tag) and waits until the app
+// has handled it: terminal input reaches the app through the input goroutine, so
+// an event posted directly could overtake it.
 func (r *Rig) Inject(b string) bool {
-	r.Con.Inject([]byte(b))
-	r.Con.WaitIdle()
-	return r.Sync()
+	r.n++
+	tag := r.n%200 + 1
+	r.Con.Inject([]byte(b + fmt.Sprintf("\x1b[57358;%du", tag)))
+	for {
+		select {
+		case got := <-r.seen:
+			if got[0] == -tag {
+				return r.waitParked(got[1])
+			}
+		case err := <-r.done:
+			r.done <- err
+			return false
+		}
+	}
 }
+
+// KeySentinel recognises the in-band sentinel; roots must call SeenKey for it.
+func KeySentinel(ev vaxis.Event) (tag int, ok bool) {
+	if k, isKey := ev.(vaxis.Key); isKey && k.Keycode == vaxis.KeyCapsLock {
+		return int(k.Modifiers) + 1, true
+	}
+	return 0, false
+}
+
+// SeenKey must be called by the widget that receives the in-band sentinel.
+func (r *Rig) SeenKey(tag int) { r.seen <- [2]int{-tag, vtime.LastID()} }
 
 // Tick fires the frame timer the loop is waiting on and waits for the loop to
 // park again (a frame has been drawn if one was due). Returns false if Run returned.
